@@ -62,6 +62,12 @@ CHECKS = {
  'C10': dict(cat='proof', tech='deductive: ghost invocation counters on the real Connection.defunct/error_all_requests/error_all_cp_sessions/send_msg/process_msg (decode-error path); interference of defunct() inside send_msg modelled at its unlocked read',
              text='Exactly-once erroring of every outstanding handler (also when handlers raise, also on the helper-thread path), idempotence of defunct, refusal of later sends and no second delivery are postconditions for up to 3 (and 101) outstanding handlers. The check-then-register race of send_msg is a recorded known finding (KF-C10-send_msg-races-with-defunct).',
              ref='DESIGN.md §4 C10'),
+ 'C12': dict(cat='proof', tech='deductive: ghost OPENED/CLOSED accounting and typestate postconditions on the real HostConnection borrow/return/_replace/shutdown, HostConnectionPool._wait_for_conn and Connection.set_keyspace_async; interference of shutdown() inside _replace modelled at the blocking factory call',
+             text='Shutdown closes every connection the pool owns (current and trashed), borrows from a shut-down pool fail, returns decrement exactly once and never below zero (given a prior borrow), keyspace switching takes its slot before calling back; capacity/freshness of borrowed ids is C09. The replace-vs-shutdown leak is a recorded known finding.',
+             ref='DESIGN.md §4 C12'),
+ 'C13': dict(cat='proof', tech='deductive: pre@close obligations (close only while in_flight == |orphans|, decided and executed under connection.lock) on the real HostConnection._replace / return_connection / borrow_connection',
+             text='For every in-flight count and orphan count of the old connection: it is closed iff only orphaned streams remain, under its lock; otherwise trashed and closed by the return that leaves only orphans (also an orphaning return); borrowers move to the fresh connection.',
+             ref='DESIGN.md §4 C13'),
 }
 
 NA_REASON = {}
